@@ -416,6 +416,7 @@ static void run_batlate(hctx* h, fcase* fc, long bs, int mode) {
     int st[MAXSTEP + 2], nst = 0;
     if (write_file(fc, path, st, &nst) != 0) { fprintf(h->out, " | err=create\n"); h->n_lines++; return; }
     size_t fn; uint8_t* fb = slurp(path, &fn);
+    uint8_t* fb0 = h_alloc(fn); memcpy(fb0, fb, fn);        /* the caller's buffer as handed to the reader */
     uint64_t dg[2] = { 0xCBF29CE484222325ull, 0xCBF29CE484222325ull }; long nb = 0;
     for (int late = 0; late < 2; late++) {
         carquet_error_t err; memset(&err, 0, sizeof err);
@@ -435,10 +436,38 @@ static void run_batlate(hctx* h, fcase* fc, long bs, int mode) {
         if (br) carquet_batch_reader_free(br);
         carquet_reader_close(rd);
     }
-    fprintf(h->out, " | nb=%ld dg_late=%llu dg_now=%llu p_late_eq_now=%d\n", nb, (unsigned long long)dg[1], (unsigned long long)dg[0], dg[0] == dg[1]);
-    h->n_lines++; free(fb); unlink(path);
+    fprintf(h->out, " | nb=%ld dg_late=%llu dg_now=%llu p_late_eq_now=%d p_buffer_intact=%d\n", nb, (unsigned long long)dg[1], (unsigned long long)dg[0], dg[0] == dg[1],
+            memcmp(fb, fb0, fn) == 0);
+    h->n_lines++; free(fb); free(fb0); unlink(path);
 }
+/* directed: row groups whose column chunks span several memory pages (REQUIRED INT64 + OPTIONAL DOUBLE, uncompressed, `rows`
+ * rows per row group): whatever a reader does to the memory of a row group it has left behind (drop, unmap, overwrite),
+ * batches handed out earlier and the caller's own buffer must stay what they were */
+static void gen_big_rg_case(hctx* h, fcase* fc, int nrg, int rows) {
+    memset(fc, 0, sizeof *fc);
+    fc->ncols = 2;
+    snprintf(fc->cols[0].name, sizeof fc->cols[0].name, "k"); fc->cols[0].rep = 0; fc->cols[0].ptype = 2;
+    snprintf(fc->cols[1].name, sizeof fc->cols[1].name, "x"); fc->cols[1].rep = 1; fc->cols[1].ptype = 5;
+    fc->codec = 0; fc->page = 1024 * 1024;
+    int ns = 0;
+    for (int g = 0; g < nrg; g++) {
+        for (int c = 0; c < 2; c++) {
+            fstep* t = &fc->steps[ns++]; t->kind = 0; t->col = c; t->nrows = rows; t->has_defs = c == 1; t->has_reps = 0;
+            t->defs = (uint8_t*)h_alloc((size_t)rows); t->reps = (uint8_t*)h_alloc((size_t)rows);
+            int nn = 0;
+            for (int r = 0; r < rows; r++) { t->defs[r] = c == 0 ? 1 : (uint8_t)((r % 11) != 3); t->reps[r] = 0; nn += t->defs[r]; }
+            t->nvals = nn; t->vals = (uint8_t**)h_alloc((size_t)nn * sizeof(uint8_t*)); t->vlen = (int*)h_alloc((size_t)nn * sizeof(int));
+            for (int j = 0; j < nn; j++) { t->vals[j] = h_alloc(8); uint64_t v = h_next(h) | 1; memcpy(t->vals[j], &v, 8); t->vlen[j] = 8; }
+        }
+        if (g + 1 < nrg) { fc->steps[ns].kind = 1; ns++; }
+    }
+    fc->nsteps = ns;
+}
+
 static void gen_batlate(hctx* h) {
+    { fcase fc; gen_big_rg_case(h, &fc, 3, 2200);
+      for (int mode = 0; mode < 3; mode++) run_batlate(h, &fc, 700 + (long)h_below(h, 900), mode);
+      free_case(&fc); }
     long n = h->thorough ? 1500 : 120;
     for (long i = 0; i < n; i++) {
         fcase fc; gen_case(h, &fc, i % 2 == 0);
